@@ -330,6 +330,7 @@ func (e *wenv) doRoundTrip(st *simkit.Step) {
 		x.Fault("fragmented-read")
 	}
 	rd := v030.NewV030ReadWriter(cr, &sink{}, &nopCloser{})
+	var kept []p2pcommon.Message
 	for i, m := range msgs {
 		got, err, pan := readGuard(rd)
 		if pan != "" {
@@ -344,6 +345,18 @@ func (e *wenv) doRoundTrip(st *simkit.Step) {
 			x.Fail("C18", "roundtrip-mismatch", sigText(d), fmt.Sprintf("Read(Write(m)) != m for message %d (sub=%#x, %d bytes): %s", i, m.sub, len(m.payload), d), e.step)
 			return
 		}
+		kept = append(kept, got)
+	}
+	// a receiver may keep a message while it reads on (a notice relayed later, a response matched to
+	// its request): what was handed out must still be what was written once the stream is drained
+	for i, m := range msgs {
+		if d := sameMsg(kept[i], m); d != "" {
+			x.Fail("C18", "roundtrip-mismatch", "kept-message-changed/"+sigText(d), fmt.Sprintf("message %d (sub=%#x, %d bytes) was read back correctly, but after %d further message(s) were read from the same connection it has changed: %s", i, m.sub, len(m.payload), len(msgs)-1-i, d), e.step)
+			return
+		}
+	}
+	if len(msgs) > 1 {
+		x.Probe("messages-kept-across-reads")
 	}
 	x.Count("rt.messages", int64(len(msgs)))
 	got, err, pan := readGuard(rd)
